@@ -31,15 +31,20 @@
 (*              where paidFree(u) = x - (Locked'(u) - Locked(u)) is what   *)
 (*              the recipient may spend of the x paid coins by u: the part *)
 (*              of the token's schedule that left the record is the most   *)
-(*              the recipient may have been released; and the remaining    *)
-(*              record itself releases nothing earlier than before.        *)
+(*              the recipient may have been released; the remaining record *)
+(*              itself releases nothing earlier than before; and the part  *)
+(*              that left is no earlier than the pro-rata share x/S of the *)
+(*              token's schedule (every token carries 1/S of every release *)
+(*              event; integral rounding may only delay).                  *)
 (*                                                                         *)
 (* As-built machine M: transcription of x/liquidvesting/types/schedule.go  *)
 (* (SubtractAmountFromPeriods, ExtractUpcomingPeriods, ReplacePeriodsTail, *)
 (* CurrentPeriodShift), keeper/msg_server.go (Liquidate, Redeem),          *)
 (* x/vesting ReadSchedule / DisjunctPeriods / ApplyVestingSchedule /       *)
-(* addGrant.  Known deviation from P, member of CONSTANT Defects:          *)
-(*   "merge_min_start"  ApplyVestingSchedule(merge) hands                  *)
+(* addGrant.  Deviation from P found in the pinned tree (F2, repaired in   *)
+(* /repo by c3dec7b), kept as a named, switchable member of CONSTANT       *)
+(* Defects so that its return is recognised:                               *)
+(*   "merge_min_start"  ApplyVestingSchedule(merge) handed                 *)
 (*        Min64(startTime, acc.StartTime) to addGrant: a grant that starts *)
 (*        later than the recipient's account is re-based onto the          *)
 (*        account's earlier start and unlocks early.                       *)
@@ -210,6 +215,13 @@ RedeemBroken(s, t, from, to, id, x, now) ==
     (IF /\ WellFormed(after)
         /\ \A u \in Crit({before, after}) : BigLE(Cum(D, after, u)[ND], Cum(D, before, u)[ND])
      THEN {} ELSE {"redeem-remaining-schedule-earlier"})
+    \cup
+    \* the part that leaves the record is no earlier than the pro-rata share of the redeemed tokens: x of
+    \* S tokens carry x/S of every release event, and integral rounding may only delay
+    (IF \A u \in Crit({before, after}) :
+           BigLE(BigMul(BigSub(Cum(D, before, u)[ND], Cum(D, after, u)[ND]), PTotal(d.periods)),
+                 BigMul(x, Cum(D, before, u)[ND]))
+     THEN {} ELSE {"redeem-part-earlier-than-pro-rata-share"})
     \cup
     \* the paid coins are released no earlier than the part of the record that left
     (IF \A u \in RedeemInstants({ALock(R), AVest(R), ALock(R2), AVest(R2), before, after}, now) :
